@@ -9,6 +9,7 @@ import RelicVerif.Model.Fb
 import RelicVerif.Model.Eb
 import RelicVerif.Model.EbMul
 import RelicVerif.Model.Rec
+import RelicVerif.Model.BnConv
 
 namespace Driver.C16
 open Driver Relic.Spec.Gf2 Relic.Spec.BinCurve
@@ -215,6 +216,34 @@ def handleField (e : FEnv) (w : Nat) (op : String) (args : List String) (got : S
     let a ← parseHexNat a
     let k ← pI k
     if a = 0 ∧ k < 0 then cls "err" else cls (el (K.exp a k))
+  | "fb_wstr", [len, a, radix] => do
+    -- C07: text form of a binary-field element = positional notation of its bit vector in a radix 2, 4, …, 64; the advertised
+    -- size is the text length + 1 (NUL; 2 for zero); a shorter buffer or any other radix is reported
+    let len ← len.toNat?
+    let a ← parseHexNat a
+    let radix ← radix.toNat?
+    let txt := if a = 0 then "0" else
+      let rec go (fuel n : Nat) (acc : List Char) : List Char :=
+        match fuel with
+        | 0 => acc
+        | f + 1 => if n = 0 then acc else go f (n / radix) (convChar (n % radix) :: acc)
+      String.ofList (go (Nat.log2 a + 2) a [])
+    let valid := [2, 4, 8, 16, 32, 64].contains radix
+    cls (if !valid then "err size=err"
+         else (if len < txt.length + 1 then "err" else "\"" ++ txt ++ "\"") ++ " size=" ++ toString (txt.length + 1))
+  | "fb_rstr", [radix, s] => do
+    -- decode accepts exactly the canonical numerals of field elements (digits below the radix, value below z^m, no sign): anything it
+    -- accepts must re-encode to the input; upper/lower case is the library's documented digit alphabet
+    let radix ← radix.toNat?
+    let s := if s == "\"\"" then "" else s
+    let valid := [2, 4, 8, 16, 32, 64].contains radix
+    -- a character that is not a digit of the radix ends the numeral (the contract of bn_read_str, which parses it): the value is that of
+    -- the longest valid prefix
+    let digs := s.toList.map fun c => (charVal (if radix < 36 then c.toUpper else c)).bind fun i => if i < radix then some i else none
+    let pre := digs.takeWhile Option.isSome
+    let n := pre.foldl (fun acc d => acc * radix + d.getD 0) 0
+    if !valid || s.isEmpty || s.toList.head? == some '-' then cls "err"
+    else if bitLen n > F.m then cls "err" else ms (el n) (el n) [if pre.length < digs.length then "rstr.prefix" else "rstr.full"]
   | "fb_wbin", [len, a] => do
     let len ← len.toNat?
     let a ← parseHexNat a
@@ -226,7 +255,8 @@ def handleField (e : FEnv) (w : Nat) (op : String) (args : List String) (got : S
     if bytes ≠ nb then cls "err" else do
       let v ← parseHexNat h
       -- a byte string with coefficients at or above z^m does not denote a field element
-      if bitLen v > F.m then pred got (got == "err" || got == el v) "err (or the non-canonical value, flagged)" ["rbin.highbits"]
+      -- (C07: decoding yields a reduced element or fails; fb_read_bin rejects them since fix 350109e)
+      if bitLen v > F.m then ms "err" "err" ["rbin.highbits"]
       else cls (el v)
   | "fb_invsim", _ :: n :: rest => do
     let n ← n.toNat?
